@@ -696,7 +696,7 @@ pub fn run(run: &mut Run) {
         "expected bits per symbol come from the harness (BPSK 1, 8PSK 3), not from the library constant".into(),
     ];
     let miri = cfg!(miri);
-    let n = if miri { 1 } else { run.tier.n(36, 600) };
+    let n = if miri { 1 } else { run.tier.n(90, 1500) };
     let thorough = run.tier == crate::ctx::Tier::Thorough;
     run.sub_seq("modulation-tap", n, move |l, idx, rng| {
         let cfg = gen_config(rng, idx);
@@ -709,7 +709,7 @@ pub fn run(run: &mut Run) {
         };
         run_config(l, &cfg, true, &ebn0s, goal, idx);
     });
-    let n2 = if miri { 1 } else { run.tier.n(24, 300) };
+    let n2 = if miri { 1 } else { run.tier.n(60, 800) };
     run.sub_seq("builder-path", n2, move |l, idx, rng| {
         let mut cfg = gen_config(rng, idx + 1000);
         let ebn0s: Vec<f32> = if idx % 3 == 2 {
